@@ -111,11 +111,92 @@ def defect_probe(res):
     res.coverage['traces_validated_against_impl'] = res.coverage.get('traces_validated_against_impl', 0) + len(cases) + len(CLEAN)
 
 
+def m15d(res, tier):
+    """M15d (clean input is not flagged, number-literal kernel): `Expression::parse_number` from MIR over every well-formed decimal literal
+    `d{k} . d{m}` (k up to 21 digits - beyond i64 -, m <= 2) and `d{k}`: the scanner accepts it (returns an expression, consumes all of it,
+    raises no diagnostic).  `str::parse::<f64>` is the environment; its Err answer on a well-formed literal is excluded (core is trusted)."""
+    import z3
+    from mirsym.mir import Module
+    from mirsym import targets
+    from mirsym.core import Agg
+    mod = Module(common.mir_dump('tc'))
+    nq = 0
+    bad = []
+    shapes = [(1, 1), (3, 2), (19, 1), (20, 1), (21, 2), (20, 0)] if tier != 'thorough' else [(k, m) for k in (1, 2, 18, 19, 20, 21, 22) for m in (0, 1, 2)]
+    for k, m in shapes:
+        L = k + (1 + m if m else 0)
+        ex = []
+
+        def base(inp_chars):
+            cs = []
+            for i in range(L):
+                c = inp_chars[i]
+                if i == k and m:
+                    cs.append(c == 46)
+                elif i == 0 and k > 1:
+                    cs.append(z3.And(c >= 49, c <= 57))      # no leading zero (that is the legacy octal form)
+                else:
+                    cs.append(z3.And(c >= 48, c <= 57))
+            return cs
+        # run_ps_client builds the Input: constrain through a wrapper that knows the char variables
+        from mirsym import ps_env
+        orig = ps_env.Input.base
+
+        def patched(self, ascii_only=True):
+            return orig(self, ascii_only=ascii_only) + base(self.chars) + [self.n == L]
+        ps_env.Input.base = patched
+        try:
+            exe, inp, fn, done = targets.run_ps_client(mod, r'376:1: 376:16>::parse_number$', L)
+        finally:
+            ps_env.Input.base = orig
+        res.solver_time += exe.stats['solver_time']
+        rets = [q for q in done if q.status == 'returned']
+        if not rets:
+            res.inconc('M15d %d.%d: no returning path' % (k, m))
+        for f in exe.findings:
+            bad.append(('exec:' + f.kind, inp.string_of(f.model) if f.model is not None else None))
+        for q in rets:
+            idx, warns, _ = q.env['ps']
+            r = q.result
+            none = isinstance(r, Agg) and r.variant == 'None'
+            f64_err = any(e[0] == 'parse_f64' and e[-1] is None for e in q.events)      # environment: dec2flt refuses the slice (excluded: core is trusted on well-formed literals)
+            if f64_err:
+                continue
+            if (none or warns or idx != L):
+                okm, model = exe.check(exe.base + q.pc, want_model=True)
+                nq += 1
+                res.query('sat' if okm else 'unsat')
+                if okm:
+                    bad.append(('rejected' if none or warns else 'partly-consumed', inp.string_of(model)))
+            else:
+                nq += 1
+                res.query('unsat')
+        res.functions.append({'fn': 'Expression::parse_number (clean decimal literals)', 'shape': '%d digits%s' % (k, ' . %d digits' % m if m else ''), 'paths': len(done)})
+    log('[C15] M15d: %d obligations over %d literal shapes, %d candidate rejections' % (nq, len(shapes), len(bad)))
+    seen = set()
+    for cls, lit in bad:
+        if cls in seen or not lit:
+            continue
+        seen.add(cls)
+        # replay: the literal in a binding must compile without a Warn+ diagnostic
+        from jssym import driver
+        c = driver.compile_batch(['<v a="{{ %s }}">{{ %s }}</v>' % (lit, lit)], want=('gen_object',))[0]
+        res.coverage['traces_validated_against_impl'] = res.coverage.get('traces_validated_against_impl', 0) + 1
+        diag = [d for d in c.get('diagnostics', []) if d['level'] >= 2] if 'panic' not in c else [{'kind': 'panic: ' + c['panic']}]
+        if diag:
+            res.violation({'engine': 'M', 'harness': 'M15d', 'class': cls}, 'the well-formed template {{ %s }} is flagged: %s' % (lit, diag[0].get('kind')), {'literal': lit})
+        else:
+            # e.g. the model's "parse::<f64> fails" branch: not reproducible, and not a claim about core
+            res.coverage.setdefault('m15d_unreproduced', []).append([cls, lit])
+    return nq
+
+
 def main(tier):
     from kani import runner
     res = Result('C15', 'model_checking')
     res.engines = ['K (Kani harnesses on the ParseState primitives and Position ordering)', 'M (level table from MIR)']
     n = m15b(res)
+    n += m15d(res, tier)
     defect_probe(res)
     results = runner.run_for(res, 'C15', tier)
     checks = sum(r['checks'] for r in results)
@@ -125,7 +206,7 @@ def main(tier):
     res.bounds = {'text': '<= 4 arbitrary UTF-8 bytes (skip_bytes: "<newline|a><any scalar>")', 'unwinding': 'length + 2, unwinding assertions on'}
     res.assumptions = ['cur_index / line / utf16_col are written only by the primitives covered by the harnesses (ParseState fields are private to parse/mod.rs)',
                        'core::str::slice_error_fail stubbed to panic!()']
-    res.outside = ['clean input produces no Warn+ diagnostic; every injected defect is flagged (whole-parser quantifier)', 'which location a given diagnostic gets']
+    res.outside = ['clean input produces no Warn+ diagnostic (decided only for decimal number literals, M15d); every injected defect is flagged (whole-parser quantifier)', 'which location a given diagnostic gets']
     return res.finish()
 
 
